@@ -49,37 +49,144 @@ def oracle_relevant(st, D, nt, rows, relevant):
 
 
 def run_learn(it_tr, Xtr, Ytr, Xva, Yva, n_iter, draws_seed):
-    """Runs SupervisedOPF.learn on copies; returns (arrays after, per-iteration records, final state) or raises."""
+    """Runs SupervisedOPF.learn on copies; returns (arrays after, per-iteration records, final state, object, trace)
+    or raises.  trace = dict(draws=[every j drawn, in call order], best_calls=[iteration index at each deepcopy(self)])."""
+    import types
     import opfython.math.general as g
     import opfython.math.random as r
+    import opfython.models.supervised as sup_mod
     from opfython.models.supervised import SupervisedOPF
     opf = SupervisedOPF(distance=it_tr)
     Xtr, Ytr, Xva, Yva = Xtr.copy(), Ytr.copy(), Xva.copy(), Yva.copy()
     recs = []
-    orig_acc, orig_fit = g.opf_accuracy, SupervisedOPF.fit
+    trace = dict(draws=[], best_calls=[])
+    orig_acc, orig_rand, orig_copy = g.opf_accuracy, r.generate_uniform_random_number, sup_mod.copy
 
     def wacc(labels, preds):
         v = orig_acc(labels, preds)
-        recs.append(dict(acc=float(v), state=node_state(opf.subgraph), Xtr=Xtr.copy(), Ytr=Ytr.copy()))
+        recs.append(dict(acc=float(v), state=node_state(opf.subgraph), Xtr=Xtr.copy(), Ytr=Ytr.copy(),
+                         Xva=Xva.copy(), Yva=Yva.copy(),
+                         errs=[int(e) for e in np.argwhere(np.asarray(labels) != np.asarray(preds)).ravel()]))
         return v
+
+    def wrand(*a, **k):
+        v = orig_rand(*a, **k)
+        trace["draws"].append(int(v[0]))
+        return v
+
+    def wdeepcopy(x, *a, **k):
+        if x is opf:
+            trace["best_calls"].append(len(recs) - 1)
+        return orig_copy.deepcopy(x, *a, **k)
     np.random.seed(draws_seed)
     g.opf_accuracy = wacc
+    r.generate_uniform_random_number = wrand
+    sup_mod.copy = types.SimpleNamespace(deepcopy=wdeepcopy, copy=orig_copy.copy)
     try:
         opf.learn(Xtr, Ytr, Xva, Yva, n_iterations=n_iter)
     finally:
         g.opf_accuracy = orig_acc
-    return (Xtr, Ytr, Xva, Yva), recs, node_state(opf.subgraph), opf
+        r.generate_uniform_random_number = orig_rand
+        sup_mod.copy = orig_copy
+    return (Xtr, Ytr, Xva, Yva), recs, node_state(opf.subgraph), opf, trace
+
+
+class RowIds:
+    """Every distinct feature row of a case gets an integer id (rows are only moved by learn / prune)."""
+
+    def __init__(self, *arrays):
+        self.ids = {}
+        for A in arrays:
+            for x in A:
+                self.ids.setdefault(tuple(map(float, x)), len(self.ids))
+
+    def of(self, A):
+        return [self.ids.get(tuple(map(float, x)), -1) for x in A]
+
+
+def learn_term(desc, recs, trace):
+    """The Coq term running Model/Learn.learn on what the real run saw, or None when an accuracy is NaN."""
+    ids = desc["_ids"]
+    accs, smalls, prev = [], [], 0
+    for rcd in recs:
+        a = rcd["acc"]
+        if a != a:
+            return None
+        accs.append(enc(a))
+        smalls.append(1 if np.fabs(a - prev) < 0.0001 else 0)
+        prev = a
+    errss = [rcd["errs"] for rcd in recs]
+    protos = [[1 if s == 1 else 0 for s in rcd["state"]["status"]] for rcd in recs]
+    return "run_learn %d %s %s %s %s %s %s %s %s %s" % (
+        desc["n_iterations"], zlist(ids.of(desc["Xtr"])), zlist(desc["Ytr"]), zlist(ids.of(desc["Xva"])), zlist(desc["Yva"]),
+        zlist(accs), zlist(smalls), zlistlist(errss), zlistlist(protos), zlist(trace["draws"]))
+
+
+def learn_expected(desc, arrays, recs, opf, trace):
+    ids = desc["_ids"]
+    Xt2, Yt2, Xv2, Yv2 = arrays
+    best_t = trace["best_calls"][-1] if trace["best_calls"] else -1
+    snapX = ids.of([nd.features for nd in opf.subgraph.nodes])
+    snapY = [int(nd.label) for nd in opf.subgraph.nodes]
+    return ([best_t, len(recs), 0] + ids.of(Xt2) + [int(y) for y in Yt2] + ids.of(Xv2) + [int(y) for y in Yv2]
+            + snapX + snapY)
+
+
+def run_prune(metric, Xtr, Ytr, Xva, Yva, n_iter):
+    """Runs SupervisedOPF.prune; returns (object, relevance flags after each predict call)."""
+    from opfython.models.supervised import SupervisedOPF
+    opf = SupervisedOPF(distance=metric)
+    flagss = []
+    orig_predict = SupervisedOPF.predict
+
+    def wpredict(self, *a, **k):
+        out = orig_predict(self, *a, **k)
+        flagss.append([1 if int(nd.relevant) != 0 else 0 for nd in self.subgraph.nodes])
+        return out
+    SupervisedOPF.predict = wpredict
+    try:
+        opf.prune(Xtr, Ytr, Xva, Yva, n_iterations=n_iter)
+    finally:
+        SupervisedOPF.predict = orig_predict
+    return opf, flagss
+
+
+class _Meta:
+    def __init__(self, d):
+        self.d = d
+
+    def desc(self):
+        return {k: v for k, v in self.d.items() if not k.startswith("_")}
 
 
 def multiset(X, Y):
     return sorted((tuple(map(float, x)), int(y)) for x, y in zip(X, Y))
 
 
+def corr_learn(rep, name, tag, terms, expect, metas):
+    if not terms:
+        rep.obligation(name, True, "no cases")
+        return []
+    try:
+        got = run_cases(tag, terms, requires=("Model.Run", "Model.RunLearn"))
+    except RuntimeError as ex:
+        rep.obligation(name, False, str(ex))
+        return None
+    bad = [i for i, (g_, e_) in enumerate(zip(got, expect)) if g_ != e_]
+    det = ""
+    if bad:
+        i = bad[0]
+        det = "%d disagreements; first: %s\n model=%r\n impl =%r" % (len(bad), json.dumps(metas[i].desc())[:1500], got[i], expect[i])
+    rep.obligation(name, not bad, det)
+    return bad
+
+
 def main(tier, seed):
     setup_impl_env()
     from opfython.models.supervised import SupervisedOPF
     rep = Report("C17", tier, seed)
-    standard_proof_phase(rep, "C17", MODEL_FILES + ["Props/C17"])
+    standard_proof_phase(rep, "C17", MODEL_FILES + ["Model/Learn", "Model/RunLearn", "Proofs/Predict", "Proofs/PredictRel",
+                                                    "Proofs/Learn", "Props/C17"])
     rng = random.Random(seed + 17)
     nviol = 0
     # ---- (a) relevance marking: correspondence (through run_sup_predict) + oracle
@@ -108,7 +215,8 @@ def main(tier, seed):
     rep.corr["relevant"] = dict(cases=len(terms), disagreements=None if bad is None else len(bad))
     # ---- (b) learn: conservation + best model kept (oracle on the real arrays)
     NL = 60 if tier == "quick" else 1200
-    lstats = dict(runs=0, swaps=0, iterations=0, crashed=0)
+    lstats = dict(runs=0, draws=0, iterations=0, crashed=0)
+    lterms, lexpect, lmetas = [], [], []
     for i in range(NL):
         metric = rng.choice(["euclidean", "squared_euclidean", "manhattan", "log_squared_euclidean"])
         ntr, nva, dim = rng.randint(4, 9), rng.randint(2, 6), rng.randint(1, 3)
@@ -128,7 +236,7 @@ def main(tier, seed):
         desc = dict(metric=metric, Xtr=Xtr.tolist(), Ytr=Ytr.tolist(), Xva=Xva.tolist(), Yva=Yva.tolist(), n_iterations=n_iter, np_seed=i)
         before = multiset(np.vstack([Xtr, Xva]), np.hstack([Ytr, Yva]))
         try:
-            (Xt2, Yt2, Xv2, Yv2), recs, final, opf = run_learn(metric, Xtr, Ytr, Xva, Yva, n_iter, i)
+            (Xt2, Yt2, Xv2, Yv2), recs, final, opf, trace = run_learn(metric, Xtr, Ytr, Xva, Yva, n_iter, i)
         except IndexError as ex:
             # swaps can empty a class out of the validation labels; opf_accuracy then indexes out of range
             # (its domain is 'every class present among the true labels', C20) - not a C17 matter
@@ -140,7 +248,14 @@ def main(tier, seed):
             key = "learn:raises:" + type(ex).__name__
             rep.violation("SupervisedOPF.learn raised %r" % (ex,), desc, key=key)
             continue
-        lstats["runs"] += 1; lstats["iterations"] += len(recs)
+        lstats["runs"] += 1; lstats["iterations"] += len(recs); lstats["draws"] += len(trace["draws"])
+        lstats["runs_with_exchange"] = lstats.get("runs_with_exchange", 0) + (1 if (Xt2 != Xtr).any() or (Yt2 != Ytr).any() else 0)
+        cd = dict(desc); cd["_ids"] = RowIds(Xtr, Xva)
+        term = learn_term(cd, recs, trace)
+        if term is None:
+            lstats["nan_accuracy"] = lstats.get("nan_accuracy", 0) + 1
+        else:
+            lterms.append(term); lexpect.append(learn_expected(cd, (Xt2, Yt2, Xv2, Yv2), recs, opf, trace)); lmetas.append(_Meta(cd))
         rep.count_case(("learn", i, metric), len(recs) > 1)
         after = multiset(np.vstack([Xt2, Xv2]), np.hstack([Yt2, Yv2]))
         if Xt2.shape != Xtr.shape or Xv2.shape != Xva.shape:
@@ -158,9 +273,20 @@ def main(tier, seed):
                 rep.violation("learn leaves the classifier of iteration %r, the best accuracy %r was achieved at iteration %d (accuracies %r)" % (which, accs[b], b, accs),
                               desc, key="learn:keeps_best"); nviol += 1
     rep.corr["learn"] = dict(cases=lstats["runs"], distribution=lstats)
+    bad = corr_learn(rep, "correspondence Model/Learn.learn vs SupervisedOPF.learn fed with the recorded accuracies, error positions, "
+                          "prototype flags and random draws: four arrays afterwards, best iteration, iteration count, kept training set",
+                     "C17learn", lterms, lexpect, lmetas)
+    rep.corr["learn_model"] = dict(cases=len(lterms), disagreements=None if bad is None else len(bad),
+                                   draws=lstats["draws"], iterations=lstats["iterations"])
+    if bad:
+        for i in bad[:3]:
+            rep.violation("SupervisedOPF.learn deviates from Model/Learn.learn (arrays / best iteration / kept training set)",
+                          lmetas[i].desc(), key="learn:model")
+            nviol += 1
     # ---- (c) prune: final training set is a sub-multiset with labels intact (oracle)
     NP = 40 if tier == "quick" else 800
     pruned = 0
+    pterms, pexpect, pmetas = [], [], []
     for i in range(NP):
         it = gen_instance(rng, nmax=9, m=rng.randint(2, 5), kinds=("feat",))
         if it.X is None:
@@ -169,11 +295,17 @@ def main(tier, seed):
         n = it.n
         Xtr, Ytr = X[:n].copy(), np.array(it.labels)
         Xva = X[n:].copy(); Yva = np.array([it.labels[rng.randrange(n)] for _ in range(it.m)])
-        opf = SupervisedOPF(distance=it.metric)
+        n_it = rng.randint(1, 3)
         try:
-            opf.prune(Xtr, Ytr, Xva, Yva, n_iterations=rng.randint(1, 3))
+            opf, flagss = run_prune(it.metric, Xtr, Ytr, Xva, Yva, n_it)
         except Exception as ex:
             continue   # e.g. a class disappears and fit cannot find prototypes: outside C17
+        ids = RowIds(X[:n])
+        pterms.append("run_prune %s %s %s" % (zlist(ids.of(X[:n])), zlist(it.labels), zlistlist(flagss[:n_it])))
+        fx = ids.of([nd.features for nd in opf.subgraph.nodes])
+        pexpect.append([len(fx)] + fx + [int(nd.label) for nd in opf.subgraph.nodes])
+        d = it.desc(); d["n_iterations"] = n_it; d["Yva"] = Yva.tolist()
+        pmetas.append(_Meta(d))
         pruned += 1
         rep.count_case(("prune", it.key()), True)
         fin = sorted((tuple(map(float, nd.features)), int(nd.label)) for nd in opf.subgraph.nodes)
@@ -187,7 +319,9 @@ def main(tier, seed):
                 ok = False
         if not ok or len(fin) > n:
             rep.violation("prune: final training set is not a sub-multiset of the original", it.desc(), key="prune"); nviol += 1
-    rep.corr["prune"] = dict(cases=pruned)
+    bad = corr_learn(rep, "correspondence Model/Learn.prune vs SupervisedOPF.prune fed with the relevance flags of each round: final training set",
+                     "C17prune", pterms, pexpect, pmetas)
+    rep.corr["prune"] = dict(cases=pruned, disagreements=None if bad is None else len(bad))
     rep.extra["oracle_violations"] = nviol
     rep.samples = [it.desc() for it in insts[:2]]
     rep.rule = ("(a) fitted models + batches of 1-4 queries, relevant flags compared with the model and with the winner-path definition; "
